@@ -372,6 +372,10 @@ def check(ctx):
     from . import c16 as _c16
     for impl in _c16.IMPLS:
         _c16.fixpoint(ctx.borrowed("R8", "C16", only=("R1", "R2"), key_contains="::protocol-"), repo, impl, ctx.tier)
+    ctx.rule("R10", "a refresh interleaved with updates installs the spa's answer to THIS attempt: nothing collected by an abandoned attempt of the transfer is spliced in (C01's assembler models on both stacks borrowed) - stale leading segments would overwrite an update applied in between with the older value")
+    from .c01 import async_assembly_model as _aam, sync_assembly_model as _sam
+    _aam(ctx.borrowed("R10", "C01"), repo)
+    _sam(ctx.borrowed("R10", "C01"), repo)
     ctx.rule("R9", "message sequences end to end: on both stacks the long-lived partial-update handler, wired to the connection's own apply callback, is driven handle / handled per message with builder-made messages (two messages, an empty one in between, one position repeated within and across messages, a one-byte change): the structure receives every change once, in arrival order, and one acknowledgement is queued per message")
     message_sequence_model(ctx, repo, "R9")
     ctx.note("Not decided: interleaving of partial updates with refreshes; an observer raising during the sync apply loop skips the for-else clear (documented residual).")
